@@ -834,6 +834,19 @@ pub fn gen_steps(rng: &mut Rng, cfg: &Cfg, o: &GenOpts) -> Vec<Step> {
                     }
                 }
             }
+            if o.sync_points > 0 && rng.chance(1, 3) {
+                // a client syncs (flush_meta + fsync_range) inside the batch,
+                // after one of its writes, often while another client flushes
+                let ci = rng.below(clients.len() as u64) as usize;
+                let (off, len) = g.range(rng, cfg, o.max_write_clusters);
+                clients[ci].push(Op::Write { off, len: len as u32 });
+                clients[ci].push(Op::SyncPoint);
+                if clients.len() > 1 && rng.chance(2, 3) {
+                    let cj = (ci + 1 + rng.below(clients.len() as u64 - 1) as usize) % clients.len();
+                    let at = rng.below(clients[cj].len() as u64 + 1) as usize;
+                    clients[cj].insert(at, Op::Flush);
+                }
+            }
             steps.push(Step::Par(clients));
         } else {
             let mut op = g.op(rng, cfg, o);
